@@ -1,4 +1,5 @@
 CONSTANTS MaxC = 1000  MaxP = 1000  RxCap = 1000  TxCap = 1000
+CONSTANT RoomRule = TRUE
 SPECIFICATION TSpec
 INVARIANTS TraceInv
 CHECK_DEADLOCK FALSE
